@@ -80,6 +80,8 @@ pub trait Machine {
     fn engine_interp_op(&mut self) -> Option<(u8, bool)>;
     /// lookup, translate on miss, call — exactly what Core::run_code_block does with feature jit
     fn engine_jit_block(&mut self) -> u8;
+    /// same as engine_jit_block, entered through `call_with_canaries`; second value: callee-saved host registers clobbered
+    fn engine_jit_block_checked(&mut self) -> (u8, u64);
     fn jit_lookup(&self, ip: usize) -> bool;
     /// translate the block at ip (no lookup, no execution)
     fn jit_translate(&mut self, ip: usize) -> usize;
@@ -173,6 +175,84 @@ pub trait Machine {
     }
 }
 
+pub const CANARY: u64 = 0x5a5a_a5a5_1234_fedc;
+
+/// Enter translated code exactly as CodeCache::call does (sysv64: rdi = register file, rsi = block, rdx = epilogue), but
+/// with every callee-saved host register holding a canary value. Returns (status, bitmask of callee-saved registers that
+/// came back changed: bit 0 rbx, 1 rbp, 2 r12, 3 r13, 4 r14, 5 r15). The stack pointer is implicitly checked by the fact
+/// that the function returns and the pops restore the right values.
+#[inline(never)]
+pub unsafe fn call_with_canaries(func: usize, regs: usize, block: usize, epilogue: usize) -> (u8, u64) {
+    let status: u64;
+    let bad: u64;
+    core::arch::asm!(
+        "push rbx",
+        "push rbp",
+        "push r12",
+        "push r13",
+        "push r14",
+        "push r15",
+        "mov r10, rsp",
+        "and rsp, -16",
+        "push r10",
+        "sub rsp, 8",
+        "mov r10, {c}",
+        "mov rbx, r10",
+        "mov rbp, r10",
+        "mov r12, r10",
+        "mov r13, r10",
+        "mov r14, r10",
+        "mov r15, r10",
+        "call rax",
+        "xor ecx, ecx",
+        "mov r10, {c}",
+        "cmp rbx, r10",
+        "je 21f",
+        "or rcx, 1",
+        "21:",
+        "cmp rbp, r10",
+        "je 22f",
+        "or rcx, 2",
+        "22:",
+        "cmp r12, r10",
+        "je 23f",
+        "or rcx, 4",
+        "23:",
+        "cmp r13, r10",
+        "je 24f",
+        "or rcx, 8",
+        "24:",
+        "cmp r14, r10",
+        "je 25f",
+        "or rcx, 16",
+        "25:",
+        "cmp r15, r10",
+        "je 26f",
+        "or rcx, 32",
+        "26:",
+        "add rsp, 8",
+        "pop rsp",
+        "pop r15",
+        "pop r14",
+        "pop r13",
+        "pop r12",
+        "pop rbp",
+        "pop rbx",
+        c = const CANARY,
+        inout("rax") func as u64 => status,
+        inout("rdi") regs as u64 => _,
+        inout("rsi") block as u64 => _,
+        inout("rdx") epilogue as u64 => _,
+        out("rcx") bad,
+        out("r8") _,
+        out("r9") _,
+        out("r10") _,
+        out("r11") _,
+        clobber_abi("sysv64"),
+    );
+    (status as u8, bad)
+}
+
 pub fn dup_file(fd: i32) -> File {
     let d = unsafe { libc::dup(fd) };
     assert!(d >= 0, "dup failed");
@@ -243,6 +323,18 @@ pub fn set_arena_size(size: usize) {
                     None => core.cache.translate_code_block(&core.memory.rom, ip, core.memory.as_ptr()),
                 };
                 core.cache.call(address, &mut core.registers)
+            }
+            fn engine_jit_block_checked(&mut self) -> (u8, u64) {
+                let core = &mut *self.core;
+                let ip = core.registers.ip as usize;
+                core.cache.set_rom_bank(core.memory.get_rom_bank());
+                let offset = match core.cache.get_address_for_ip(ip) {
+                    Some(a) => a,
+                    None => core.cache.translate_code_block(&core.memory.rom, ip, core.memory.as_ptr()),
+                };
+                let (prologue, epilogue) = core.cache.verif_entry_points();
+                let block = core.cache.get_memory_start_address() + offset;
+                unsafe { call_with_canaries(prologue, &mut core.registers as *mut _ as usize, block, epilogue) }
             }
             fn jit_lookup(&self, ip: usize) -> bool {
                 self.core.cache.get_address_for_ip(ip).is_some()
